@@ -100,7 +100,10 @@ def build_impl():
             try:
                 age = time.time() - stamp.stat().st_mtime
             except OSError:
-                age = time.time() - old.stat().st_mtime
+                try:
+                    age = time.time() - old.stat().st_mtime
+                except OSError:
+                    continue        # another run removed it meanwhile
             if age > 3 * 3600 or (old.name.startswith('impl-%s-' % tag) and age > 1800):
                 shutil.rmtree(old, ignore_errors=True)
         dst.mkdir(parents=True)
